@@ -238,8 +238,10 @@ def configs(ctx):
                         if q and two and (eoe or any(b in ("unknown", "exit") for b in behs)):
                             continue
                         bound = (2 if two else None) if n == 2 else 3
+                        if q and script == "solve-push-solve":
+                            bound = 1          # three solves per run: 16 times more schedules than one solve
                         if not q and two:
-                            bound = 3
+                            bound = 3 if script == "solve-twice" else 2
                         out.append((behs, script, eoe, unsat, bound, ctx.seed))
     if q:
         # three members under a preemption bound of 2, the most race-prone script
@@ -269,7 +271,8 @@ def run(ctx):
                          "traces_validated_against_impl": c.get("evaluations", 0),
                          "configurations": c.get("configs", 0),
                          "preemption_bounds": {"2 members, one solve": "unbounded",
-                                               "2 members, two solves": 2 if ctx.quick else 3,
+                                               "2 members, solve-twice": 2 if ctx.quick else 3,
+                                               "2 members, solve-push-solve": 1 if ctx.quick else 2,
                                                "3 members": 1 if ctx.quick else 3,
                                                "4 members": None if ctx.quick else 1}})
     if c.get("capped_configs"):
